@@ -313,6 +313,7 @@ pub fn train_err_code(e: &anyhow::Error) -> (i64, String) {
         ("Offset in forward direction larger than last slice offset", 1101),
         ("Offset in reverse direction smaller than first slice offset", 1106),
         ("self.speed_trace.speed[self.state.i] >= si::Velocity::ZERO", 1202),
+        ("self.speed_trace.speed[self.state.i - 1] >= si::Velocity::ZERO", 1202),
         ("pwr_pos_max >= si::Power::ZERO", 1205),
         ("Insufficient braking force", 1301),
         ("Train does not have sufficient power to move", 1302),
@@ -412,7 +413,10 @@ pub struct SsOpts { pub profile: usize, pub size: usize, pub default_consist: bo
                     pub init: u8 /* 0 none, 1 consistent custom, 2 inconsistent time/speed */, pub negative_at: Option<usize>, pub overrun: bool }
 
 /// Build and drive a SetSpeedTrainSim step by step through its public API.
-pub fn ss_run(r: &mut Rng, id: String, o: &SsOpts) -> RunCtx {
+pub fn ss_run(r: &mut Rng, id: String, o: &SsOpts) -> RunCtx { ss_run_inner(r, id, o, None) }
+/// malformed: the time vector (true) or the speed vector (false) is shorter than the other
+pub fn ss_run_short(r: &mut Rng, id: String, o: &SsOpts, short_time: bool) -> RunCtx { ss_run_inner(r, id, o, Some(short_time)) }
+fn ss_run_inner(r: &mut Rng, id: String, o: &SsOpts, trunc: Option<bool>) -> RunCtx {
     let train = gen_train(r, o.size, o.default_consist);
     let tl = train.length();
     let vmax = train.speed_max().min(30.0);
@@ -422,6 +426,7 @@ pub fn ss_run(r: &mut Rng, id: String, o: &SsOpts) -> RunCtx {
     let max_dist = if o.overrun { total } else { (total - off0 - 50.0).max(0.0) };
     let (mut times, mut speeds) = gen_trace(r, o.n_steps, t0, v0, vmax, o.irregular, max_dist);
     if let Some(k) = o.negative_at { if k < speeds.len() { speeds[k] = -r.range(0.01, 3.0); } }
+    if let Some(st) = trunc { let cut = 2 + r.below(times.len().saturating_sub(3).max(1)); if st { times.truncate(cut); } else { speeds.truncate(cut); } }
     let init = match o.init {
         0 => None,
         1 => Some(InitTrainState::new(Some(uc::S * t0), Some(uc::M * off0), Some(uc::MPS * v0))),
